@@ -54,11 +54,13 @@ PY_SNIPPETS = [
 ]
 
 
-EXPRS = ["a", "a or b", "a and b", "not a", "a < b", "a == b != c", "a in b", "a not in b", "a is not b", "a | b", "a ^ b", "a & b", "a << b", "a + b", "a - b * c",
+EXPRS = ["a for a in b if a for c in d", "a for a in b for c in d if c", "a async for a in b", "[a for a in b if a if c for d in e]", "*a for a in b", "a: b for a in c",
+         "a", "a or b", "a and b", "not a", "a < b", "a == b != c", "a in b", "a not in b", "a is not b", "a | b", "a ^ b", "a & b", "a << b", "a + b", "a - b * c",
          "a @ b", "-a", "~a", "+a", "a ** b", "-a ** -b", "await a", "a.b", "a[b]", "a[b:c, ::d]", "a(b)", "a(b, *c, d=e, **f)", "a if b else c", "lambda: a", "lambda x, *y, z=1: x",
          "(yield)", "(yield a)", "(a := b)", "a, b", "*a, b", "(a, b)", "[a, b]", "[*a]", "{a: b}", "{**a}", "{a, b}", "[a for a in b]", "{a: b for a in c}", "(a for a in b if c)",
          "'s'", "'s' 't'", "b'b'", "1", "1.5j", "...", "None", "True", "a if b else c if d else e", "lambda: (yield)", "not a in b", "a < b < c", "a or b and not c"]
-EXPR_CONTEXTS = ["@\n", "x = @\n", "x = y = @\n", "x: int = @\n", "x += @\n", "f(@)\n", "f(*@)\n", "f(**@)\n", "f(k=@)\n", "f(a, *@, b)\n", "t[@]\n", "t[*@]\n", "t[@:@]\n",
+EXPR_CONTEXTS = ["f(@, e)\n", "f(@,)\n", "f(x, @)\n", "f(x=1, @)\n", "f(@ for q in r)\n", "f(**k, @)\n", "f!(@)\n", "$(echo @(@))\n", "x = [@, *y]\n", "class C(@, e): pass\n",
+                 "@\n", "x = @\n", "x = y = @\n", "x: int = @\n", "x += @\n", "f(@)\n", "f(*@)\n", "f(**@)\n", "f(k=@)\n", "f(a, *@, b)\n", "t[@]\n", "t[*@]\n", "t[@:@]\n",
                  "[@]\n", "[*@]\n", "(@,)\n", "{@}\n", "{@: 1}\n", "{1: @}\n", "{**@}\n", "[@ for i in j]\n", "[i for i in @]\n", "[i for i in j if @]\n", "{@: @ for i in j}\n",
                  "if @: pass\n", "while @: pass\n", "for i in @: pass\n", "for i in *@, b: pass\n", "with @: pass\n", "with @ as w: pass\n", "assert @\n", "assert a, @\n", "return @\n",
                  "raise @\n", "raise a from @\n", "del t[@]\n", "t[@] = 1\n", "class C(@): pass\n", "class C(*@): pass\n", "class C(m=@): pass\n", "def f(p=@): pass\n",
